@@ -17,7 +17,7 @@
 (*   out(verdicts)  what the consumer received: equals the model's `out'   *)
 (* Not logged (silent steps, each enabled at most once per state of the    *)
 (* parent / worker, so their number is bounded by the trace): a worker     *)
-(* exits (W_Exit), the parent notices the death (P_Died) or that the       *)
+(* exits (W_Exit, W_IdleExit), the parent notices the death (P_Died) or that the       *)
 (* time-out elapsed (P_GiveUp), the consumer takes a comparison            *)
 (* (P_Consume), an idle worker sees the terminate event (W_Terminate).     *)
 (* The scenario (behaviour per recording, where the consumer stops) is     *)
@@ -53,7 +53,7 @@ TOut       == /\ IsEv("out") /\ pc = "done"
               /\ UNCHANGED vars
 
 Silent == \/ P_Died \/ P_GiveUp \/ P_Consume
-          \/ \E g \in Gens : W_Exit(g) \/ W_Terminate(g)
+          \/ \E g \in Gens : W_Exit(g) \/ W_IdleExit(g) \/ W_Terminate(g)
 
 TraceNext == \/ /\ (\/ TPrepare \/ TGot \/ TKill \/ TFinally \/ TOut
                      \/ \E g \in Gens : TTake(g) \/ TAnswer(g))
